@@ -376,7 +376,9 @@ fn run_global(rng: &mut Rng, out: &mut Out, l: &deno_lint::linter::Linter) {
       let (unres, partner, mate) = match &code[..1] {
         "-" => (unresolved, None, None),
         "p" => (unresolved, k, k),
-        _ => (if lower { true } else { unresolved }, None, k),
+        // a lower-case plain tag names an intrinsic element: no reference, never reported (repair bc254c3; before it
+        // both tags were reported, each with a fix of its own)
+        _ => (if lower { false } else { unresolved }, None, k),
       };
       occ.push(json!([name, unres, partner, mate]));
     }
@@ -530,10 +532,12 @@ fn run_bool(rng: &mut Rng, out: &mut Out, l: &deno_lint::linter::Linter) {
       };
       let (a, b) = (ch[0].0, ch[0].1);
       // the deleted range lies inside attribute `i`, behind its name
-      if ch.len() != 1 || !ch[0].2.is_empty() || a <= starts[i] || starts.get(i + 1).map_or(false, |s| b > *s) {
+      // (a single blank instead of nothing when the next attribute follows the value at once: repair f6111ae)
+      let glued = src[b..].starts_with(|c: char| !c.is_whitespace() && c != '/' && c != '>');
+      if ch.len() != 1 || ch[0].2 != if glued { " " } else { "" } || a <= starts[i] || starts.get(i + 1).map_or(false, |s| b > *s) {
         out.found("C13", &format!("unexpected-change:{}", rule), &src, json!({"meta": {"src": src, "ext": ext}, "changes": ch}));
       }
-      let starts2: Vec<usize> = starts.iter().map(|s| if *s >= b { s - (b - a) } else { *s }).collect();
+      let starts2: Vec<usize> = starts.iter().map(|s| if *s >= b { s + ch[0].2.len() - (b - a) } else { *s }).collect();
       match lint(l, &fixed, ext) {
         Outcome::Ok(d2) => {
           let idx2: Vec<Option<usize>> = d2.iter().map(|d| d.start.and_then(|s| index_of(&starts2, s))).collect();
